@@ -1065,6 +1065,22 @@ def _get_package_names(node: ast.Import | ast.ImportFrom):
     return [alias.name for alias in node.names]
 
 
+def _names_imported_from_several_origins(root: ast.AST) -> Collection[str]:
+    """Names that the imports of a module, wherever they are, bind to more than one thing."""
+    origins = collections.defaultdict(set)
+    for node in core.walk(root, (ast.Import, ast.ImportFrom)):
+        for alias in node.names:
+            if isinstance(node, ast.ImportFrom):
+                origin = (node.level, node.module, alias.name)
+            elif alias.asname:
+                origin = (0, None, alias.name)
+            else:
+                origin = (0, None, alias.name.split(".")[0])  # import a.b binds a
+            origins[(alias.asname or alias.name).split(".")[0]].add(origin)
+
+    return {name for name, name_origins in origins.items() if len(name_origins) > 1}
+
+
 @processing.fix
 def move_imports_to_toplevel(source: str) -> str:
     root = core.parse(source)
@@ -1099,6 +1115,17 @@ def move_imports_to_toplevel(source: str) -> str:
         node
         for node in imports_movable_to_toplevel
         if defined_names.isdisjoint(
+            (alias.asname or alias.name).split(".")[0] for alias in node.names
+        )
+    }
+
+    # ... and so would another import that binds the name to something else: from a import x at
+    # module level and from b import x in a function are two different x
+    ambiguous_names = _names_imported_from_several_origins(root)
+    imports_movable_to_toplevel = {
+        node
+        for node in imports_movable_to_toplevel
+        if ambiguous_names.isdisjoint(
             (alias.asname or alias.name).split(".")[0] for alias in node.names
         )
     }
